@@ -77,6 +77,43 @@ Proof. cbn [wstep]. destruct (search lits (tree_of_disk (w_disk w))); reflexivit
 Lemma strip_dot_found nm : strip_dot (46 :: 47 :: nm)%N = strip_dot nm.
 Proof. reflexivity. Qed.
 
+(* ㅂ with literal words that do not start with the built-in marker 5: the words are read off the argument SYNTAX (nothing is evaluated), the
+   tree is searched, and the file found is loaded by load_from_path under the name "./<name on disk>" - so both routes end in the same loader *)
+Theorem import_by_literals rec sp argv ip h w h1 l0 lits p id nm bytes :
+  runG rec (option (list Z)) ip h w (peek_lits argv) = DoneG h1 w (inl (Some (l0 :: lits))) 0 -> argv <> [] -> l0 <> 5%Z ->
+  search (l0 :: lits) (tree_of_disk (w_disk w)) = Found p id -> nth_error (w_disk w) (N.to_nat id) = Some (nm, bytes) ->
+  runG rec value ip h w (bi_import sp argv) = runG rec value ip h1 w (load_from_path sp (46 :: 47 :: nm)%N).
+Proof.
+  intros P NE N5 S Nth. unfold bi_import. rewrite runG_bind.
+  assert (A : check_min_arity sp (length argv) 1 = Ret tt) by (destruct argv; [elim NE; reflexivity|reflexivity]). rewrite A. cbn [runG thenG]. rewrite upddG_0.
+  rewrite runG_bind, P. cbn [thenG]. rewrite upddG_0.
+  destruct l0 as [|q|q]; try (cbn [runG wstep]; rewrite S, Nth; reflexivity).
+  destruct q as [q|q|]; try (cbn [runG wstep]; rewrite S, Nth; reflexivity). destruct q as [q|q|]; try (cbn [runG wstep]; rewrite S, Nth; reflexivity). destruct q as [q|q|]; try (cbn [runG wstep]; rewrite S, Nth; reflexivity). elim N5; reflexivity.
+Qed.
+(* ... not found / ambiguous: the language's not-found / import error at the call, nothing changes *)
+Theorem import_by_literals_not_found rec sp argv ip h w h1 l0 lits :
+  runG rec (option (list Z)) ip h w (peek_lits argv) = DoneG h1 w (inl (Some (l0 :: lits))) 0 -> argv <> [] -> l0 <> 5%Z ->
+  search (l0 :: lits) (tree_of_disk (w_disk w)) = NotFound ->
+  runG rec value ip h w (bi_import sp argv) = DoneG h1 w (inr (mkerr c_notfound sp)) 0.
+Proof.
+  intros P NE N5 S. unfold bi_import. rewrite runG_bind.
+  assert (A : check_min_arity sp (length argv) 1 = Ret tt) by (destruct argv; [elim NE; reflexivity|reflexivity]). rewrite A. cbn [runG thenG]. rewrite upddG_0.
+  rewrite runG_bind, P. cbn [thenG]. rewrite upddG_0.
+  destruct l0 as [|q|q]; try (cbn [runG wstep]; rewrite S; reflexivity).
+  destruct q as [q|q|]; try (cbn [runG wstep]; rewrite S; reflexivity). destruct q as [q|q|]; try (cbn [runG wstep]; rewrite S; reflexivity). destruct q as [q|q|]; try (cbn [runG wstep]; rewrite S; reflexivity). elim N5; reflexivity.
+Qed.
+Theorem import_by_literals_ambiguous rec sp argv ip h w h1 l0 lits :
+  runG rec (option (list Z)) ip h w (peek_lits argv) = DoneG h1 w (inl (Some (l0 :: lits))) 0 -> argv <> [] -> l0 <> 5%Z ->
+  search (l0 :: lits) (tree_of_disk (w_disk w)) = Ambiguous ->
+  runG rec value ip h w (bi_import sp argv) = DoneG h1 w (inr (mkerr c_import sp)) 0.
+Proof.
+  intros P NE N5 S. unfold bi_import. rewrite runG_bind.
+  assert (A : check_min_arity sp (length argv) 1 = Ret tt) by (destruct argv; [elim NE; reflexivity|reflexivity]). rewrite A. cbn [runG thenG]. rewrite upddG_0.
+  rewrite runG_bind, P. cbn [thenG]. rewrite upddG_0.
+  destruct l0 as [|q|q]; try (cbn [runG wstep]; rewrite S; reflexivity).
+  destruct q as [q|q|]; try (cbn [runG wstep]; rewrite S; reflexivity). destruct q as [q|q|]; try (cbn [runG wstep]; rewrite S; reflexivity). destruct q as [q|q|]; try (cbn [runG wstep]; rewrite S; reflexivity). elim N5; reflexivity.
+Qed.
+
 (* ---------- a concrete session: the hypotheses are met ---------- *)
 Definition disk1 : list (list N * list N) := [([12596; 47; 12599; 46; 116]%N, [227; 132; 177; 32; 227; 132; 180]%N)].   (* "ㄴ/ㄷ.t" holding "ㄱ ㄴ": two expressions *)
 Definition disk2 : list (list N * list N) := [([12596; 47; 12599; 46; 116]%N, [227; 132; 183]%N)].                     (* ... holding "ㄷ": the literal 2 *)
@@ -90,4 +127,4 @@ Example session_two_expressions : exists sp, runG (fun _ _ _ _ => OOF) value [] 
     = DoneG heap0 (world_start [] disk1) (inr (mkerr c_value sp)) 0.
 Proof. eexists. vm_compute. reflexivity. Qed.
 Print Assumptions load_fresh. Print Assumptions module_is_the_files_expression. Print Assumptions load_registered. Print Assumptions module_loaded_once.
-Print Assumptions load_empty_module. Print Assumptions load_several_expressions. Print Assumptions load_syntax_error. Print Assumptions load_not_utf8. Print Assumptions load_no_such_file. Print Assumptions find_is_search.
+Print Assumptions load_empty_module. Print Assumptions load_several_expressions. Print Assumptions load_syntax_error. Print Assumptions load_not_utf8. Print Assumptions load_no_such_file. Print Assumptions find_is_search. Print Assumptions import_by_literals. Print Assumptions import_by_literals_not_found. Print Assumptions import_by_literals_ambiguous.
